@@ -40,6 +40,7 @@ type C18Opts struct {
 	Locks    int    // 0: nobody has a stake lock; 1: dl locked far ahead, dm until JailEnd+3; 2: every stake owner locked far ahead
 	GenPrime [4]int // validator i starts with this many absence bits set in genesis (the slots of the heights right before C18Start, every second one)
 	JailEnd  uint64 // JailedUntil of candidate 6 (0 = C18Start+1)
+	DueFrom  uint64 // != 0: three more unbonding funds from v1 (and one from v2) that mature at this height and the two after it
 }
 
 // C18UnknownTm is a tendermint address that belongs to no candidate.
@@ -146,6 +147,14 @@ func c18Genesis(o C18Opts) *types.AppState {
 	ff(C18Start+300, D3, &p2, 2, 0, pip("99000000000000000099"), 0)
 	ff(C18Start+302, D3, &p5, C18Offline, 0, pip("10000000000000000001"), 0)
 	ff(C18Start+300, D2, nil, 0, 0, pip("5000000000000000005"), 0)
+	if o.DueFrom != 0 {
+		// funds that mature in the explored blocks: evidence against v1 in the very block in which its
+		// fund is released must still slash that fund
+		ff(o.DueFrom, D3, &p1, 1, 0, pip("70000000000000000007"), 0)
+		ff(o.DueFrom+1, D3, &p1, 1, 0, pip("80000000000000000003"), 0)
+		ff(o.DueFrom+2, D3, &p1, 1, 0, pip("9000000000000000001"), 0)
+		ff(o.DueFrom+1, D3, &p2, 2, 0, pip("60000000000000000009"), 0)
+	}
 	return g.Build()
 }
 
@@ -321,6 +330,20 @@ func init() {
 			c18Env("evidence [v2], v2 absent (13th miss)", []int{2}, v(2)),
 			c18Env("evidence [v3]", nil, v(3)),
 			c18Env("evidence [v2,v1,v2]", nil, v(2), v(1), v(2)),
+		}
+		w.Menu = []Tx{feeSend}
+		return w
+	})
+
+	// ---- valbyzdue: evidence in the block in which an unbonding fund of the accused validator matures
+	Register("valbyzdue", func() *World {
+		w := c18World(C18Opts{Locks: 1, DueFrom: C18Start + 121}, 121)
+		w.WarmupEnv = c18PrimeWarmup(121, 2, c18Seq(2, 24, 2))
+		w.Envs = []EnvSpec{
+			c18Env("no evidence", nil),
+			c18Env("evidence [v1]", nil, v(1)),
+			c18Env("evidence [v2]", nil, v(2)),
+			c18Env("evidence [v1,v1]", nil, v(1), v(1)),
 		}
 		w.Menu = []Tx{feeSend}
 		return w
